@@ -27,7 +27,12 @@ carquet_status_t carquet_byte_stream_split_encode(const uint8_t*, int64_t, int32
 carquet_status_t carquet_byte_stream_split_decode(const uint8_t*, size_t, int32_t, uint8_t*, int64_t);
 
 static void out_rec(FILE* o, uint32_t status, uint32_t aux, const void* p, size_t n) { uint32_t L = (uint32_t)n; fwrite(&status, 4, 1, o); fwrite(&aux, 4, 1, o); fwrite(&L, 4, 1, o); if (n) fwrite(p, 1, n, o); }
+static int BA_LAYOUT = 0;   /* 0: every value in its own exact-size block; otherwise all values are views into ONE block without gaps, first value first and last value last, the middle ones in a permuted order (an arena or a sorted dictionary looks like this) */
 static carquet_byte_array_t* parse_ba(const uint8_t* p, size_t n, uint32_t count, uint8_t*** owned) { carquet_byte_array_t* a = v_exact((size_t)count * sizeof *a); uint8_t** own = v_exact((size_t)count * sizeof(uint8_t*) + 8); size_t o = 0;
+    if (BA_LAYOUT && count >= 3) { size_t tot = 0, q = 0; uint32_t* Ls = v_exact((size_t)count * 4); const uint8_t** src = (const uint8_t**)v_exact((size_t)count * sizeof(uint8_t*)); for (uint32_t i = 0; i < count; i++) { if (q + 4 > n) exit(2); memcpy(&Ls[i], p + q, 4); q += 4; src[i] = p + q; q += Ls[i]; tot += Ls[i]; }
+        uint32_t* order = v_exact((size_t)count * 4); for (uint32_t i = 0; i < count; i++) order[i] = i; uint64_t h = (uint64_t)BA_LAYOUT * 0x9E3779B97F4A7C15ULL + count; for (uint32_t i = count - 2; i > 1; i--) { h = h * 6364136223846793005ULL + 1442695040888963407ULL; uint32_t j = 1 + (uint32_t)((h >> 33) % i); uint32_t t2 = order[i]; order[i] = order[j]; order[j] = t2; }
+        uint8_t* blk = v_exact(tot + 1); size_t w = 0; for (uint32_t k = 0; k < count; k++) { uint32_t i = order[k]; memcpy(blk + w, src[i], Ls[i]); a[i].data = blk + w; a[i].length = (int32_t)Ls[i]; w += Ls[i]; }
+        for (uint32_t i = 0; i < count; i++) own[i] = NULL; own[0] = blk; free(Ls); free(src); free(order); *owned = own; return a; }
     for (uint32_t i = 0; i < count; i++) { uint32_t L; if (o + 4 > n) exit(2); memcpy(&L, p + o, 4); o += 4; own[i] = v_exact_copy(p + o, L); a[i].data = own[i]; a[i].length = (int32_t)L; o += L; } *owned = own; return a; }
 static void emit_ba(FILE* o, uint32_t status, uint32_t aux, const carquet_byte_array_t* a, uint32_t count) { size_t tot = 0; for (uint32_t i = 0; i < count; i++) tot += 4 + (size_t)a[i].length; uint8_t* b = v_exact(tot); size_t q = 0; for (uint32_t i = 0; i < count; i++) { uint32_t L = (uint32_t)a[i].length; memcpy(b + q, &L, 4); q += 4; if (L) memcpy(b + q, a[i].data, L); q += L; } out_rec(o, status, aux, b, tot); free(b); }
 
@@ -52,7 +57,7 @@ int main(int argc, char** argv) {
             case 2: st = carquet_rle_encode_levels((int16_t*)in, count, (int)p1, &buf); out_rec(o, (uint32_t)st, (uint32_t)buf.size, buf.data, buf.size); break;
             case 3: { size_t cap = ((size_t)count + 7) / 8 * p1 + 8; uint8_t* d = v_exact(cap); size_t w = carquet_bitpack_32((uint32_t*)in, count, (int)p1, d); out_rec(o, 0, (uint32_t)w, d, w); free(d); break; }
             case 4: case 5: { size_t cap = (size_t)count * 12 + 2000; uint8_t* d = v_exact(cap); size_t w = 0; st = kind == 4 ? carquet_delta_encode_int32((int32_t*)in, (int32_t)count, d, cap, &w) : carquet_delta_encode_int64((int64_t*)in, (int32_t)count, d, cap, &w); out_rec(o, (uint32_t)st, (uint32_t)w, d, st == CARQUET_OK ? w : 0); free(d); break; }
-            case 6: case 7: { uint8_t** own; carquet_byte_array_t* a = parse_ba(in, len, count, &own); st = kind == 6 ? carquet_delta_length_encode(a, (int32_t)count, &buf) : carquet_delta_strings_encode(a, (int32_t)count, &buf); out_rec(o, (uint32_t)st, (uint32_t)buf.size, buf.data, st == CARQUET_OK ? buf.size : 0); for (uint32_t i = 0; i < count; i++) free(own[i]); free(own); free(a); break; }
+            case 6: case 7: { uint8_t** own; BA_LAYOUT = (int)p2; carquet_byte_array_t* a = parse_ba(in, len, count, &own); BA_LAYOUT = 0; st = kind == 6 ? carquet_delta_length_encode(a, (int32_t)count, &buf) : carquet_delta_strings_encode(a, (int32_t)count, &buf); out_rec(o, (uint32_t)st, (uint32_t)buf.size, buf.data, st == CARQUET_OK ? buf.size : 0); for (uint32_t i = 0; i < count; i++) free(own[i]); free(own); free(a); break; }
             case 8: case 9: case 10: { size_t w = kind == 8 ? 4 : kind == 9 ? 8 : p1; size_t cap = (size_t)count * w; uint8_t* d = v_exact(cap); size_t wr = 0; st = kind == 8 ? carquet_byte_stream_split_encode_float((float*)in, count, d, cap, &wr) : kind == 9 ? carquet_byte_stream_split_encode_double((double*)in, count, d, cap, &wr) : carquet_byte_stream_split_encode(in, count, (int32_t)p1, d, cap, &wr); out_rec(o, (uint32_t)st, (uint32_t)wr, d, st == CARQUET_OK ? cap : 0); free(d); break; }
             default: return 2; }
         } else {
